@@ -49,7 +49,13 @@ namespace BitSerializer::Detail
 		else
 		{
 			outTimestamp.Seconds = std::chrono::duration_cast<std::chrono::seconds>(epochTime).count();
-			const auto leftTime = epochTime - std::chrono::duration_cast<TDuration>(std::chrono::seconds(outTimestamp.Seconds));
+			auto leftTime = epochTime - std::chrono::duration_cast<TDuration>(std::chrono::seconds(outTimestamp.Seconds));
+			// Nanoseconds must be in the range [0, 999999999] (seconds are rounded down for times before the epoch)
+			if (leftTime < TDuration::zero())
+			{
+				--outTimestamp.Seconds;
+				leftTime += std::chrono::duration_cast<TDuration>(std::chrono::seconds(1));
+			}
 			outTimestamp.Nanoseconds = static_cast<int32_t>(std::chrono::duration_cast<std::chrono::nanoseconds>(leftTime).count());
 		}
 	}
@@ -57,9 +63,21 @@ namespace BitSerializer::Detail
 	template <typename TClock, typename TDuration>
 	void To(const CBinTimestamp& timestamp, std::chrono::time_point<TClock, TDuration>& outTimePoint)
 	{
+		auto seconds = timestamp.Seconds;
+		auto nanoseconds = timestamp.Nanoseconds;
+		if constexpr (std::ratio_less_v<typename TDuration::period, std::chrono::seconds::period>)
+		{
+			// Times before the epoch are stored with seconds rounded down, add the (negative) fraction to the next second
+			// for avoid overflow of intermediate value when the time is close to the minimum of target type.
+			if (seconds < 0 && nanoseconds > 0)
+			{
+				++seconds;
+				nanoseconds -= 1000000000;
+			}
+		}
 		outTimePoint = std::chrono::time_point<TClock, TDuration>(
-			Convert::Detail::SafeDurationCast<TDuration>(std::chrono::seconds(timestamp.Seconds)));
-		if (timestamp.Nanoseconds)
+			Convert::Detail::SafeDurationCast<TDuration>(std::chrono::seconds(seconds)));
+		if (nanoseconds)
 		{
 			// When duration period is greater than seconds (allowed rounding only seconds fractions)
 			if constexpr (std::ratio_greater_v<typename TDuration::period, std::chrono::seconds::period>)
@@ -69,7 +87,7 @@ namespace BitSerializer::Detail
 			else
 			{
 				// Only seconds fractions can be rounded to target type
-				auto leftTime = std::chrono::round<TDuration>(std::chrono::nanoseconds(timestamp.Nanoseconds));
+				auto leftTime = std::chrono::round<TDuration>(std::chrono::nanoseconds(nanoseconds));
 				Convert::Detail::SafeAddDuration(outTimePoint, leftTime);
 			}
 		}
@@ -88,8 +106,15 @@ namespace BitSerializer::Detail
 		}
 		else
 		{
+			using TDuration = std::chrono::duration<TRep, TPeriod>;
 			outTimestamp.Seconds = std::chrono::duration_cast<std::chrono::seconds>(duration).count();
-			const auto leftTime = duration - std::chrono::duration_cast<std::chrono::duration<TRep, TPeriod>>(std::chrono::seconds(outTimestamp.Seconds));
+			auto leftTime = duration - std::chrono::duration_cast<TDuration>(std::chrono::seconds(outTimestamp.Seconds));
+			// Nanoseconds must be in the range [0, 999999999] (seconds are rounded down for negative durations)
+			if (leftTime < TDuration::zero())
+			{
+				--outTimestamp.Seconds;
+				leftTime += std::chrono::duration_cast<TDuration>(std::chrono::seconds(1));
+			}
 			outTimestamp.Nanoseconds = static_cast<int32_t>(std::chrono::duration_cast<std::chrono::nanoseconds>(leftTime).count());
 		}
 	}
@@ -99,8 +124,20 @@ namespace BitSerializer::Detail
 	{
 		using TDuration = std::chrono::duration<TRep, TPeriod>;
 
-		outDuration = Convert::Detail::SafeDurationCast<TDuration>(std::chrono::seconds(timestamp.Seconds));
-		if (timestamp.Nanoseconds)
+		auto seconds = timestamp.Seconds;
+		auto nanoseconds = timestamp.Nanoseconds;
+		if constexpr (std::ratio_less_v<TPeriod, std::chrono::seconds::period>)
+		{
+			// Negative durations are stored with seconds rounded down, add the (negative) fraction to the next second
+			// for avoid overflow of intermediate value when the duration is close to the minimum of target type.
+			if (seconds < 0 && nanoseconds > 0)
+			{
+				++seconds;
+				nanoseconds -= 1000000000;
+			}
+		}
+		outDuration = Convert::Detail::SafeDurationCast<TDuration>(std::chrono::seconds(seconds));
+		if (nanoseconds)
 		{
 			// When duration period is greater than seconds (allowed rounding only seconds fractions)
 			if constexpr (std::ratio_greater_v<TPeriod, std::chrono::seconds::period>)
@@ -110,7 +147,7 @@ namespace BitSerializer::Detail
 			else
 			{
 				// Only seconds fractions can be rounded to target type
-				Convert::Detail::SafeAddDuration(outDuration, std::chrono::round<TDuration>(std::chrono::nanoseconds(timestamp.Nanoseconds)));
+				Convert::Detail::SafeAddDuration(outDuration, std::chrono::round<TDuration>(std::chrono::nanoseconds(nanoseconds)));
 			}
 		}
 	}
